@@ -50,19 +50,40 @@ pub fn build<T: BE>(n: usize, m1: usize, m2: usize, slot: &dyn Fn(usize, usize) 
     for i in 0..n { for c in 0..mm { if i + c >= n + m1 { b[(i, i + c + 1 - mm)] = slot(i, c); } } }
     b.resize(n, m1, m2);
     for i in 0..n { for c in 0..mm { if i + c >= m1 && i + c < n + m1 { b[(i, i + c - m1)] = slot(i, c); } } }
-    // the construction itself is not under test: verify it
-    if b.size() != n || b.size_below() != m1 || b.size_above() != m2 || b.compact().rows() != n || b.compact().cols() != mm { tool_error("banded construction: wrong geometry"); }
-    for i in 0..n { for c in 0..mm { if b.compact()[(i, c)] != slot(i, c) { tool_error("banded construction: storage differs from the case"); } } }
+    b
+}
+/// does the whole storage (padding included) equal the prescription?
+fn storage_is<T: BE>(b: &Banded<T>, n: usize, m1: usize, m2: usize, slot: &dyn Fn(usize, usize) -> T) -> bool {
+    let mm = m1 + m2 + 1;
+    if b.size() != n || b.size_below() != m1 || b.size_above() != m2 || b.compact().rows() != n || b.compact().cols() != mm { return false; }
+    for i in 0..n { for c in 0..mm { if b.compact()[(i, c)] != slot(i, c) { return false; } } }
+    true
+}
+/// the plain construction: new(n, m1, m2, fill) + in-band assignment (padding = fill everywhere)
+pub fn build_plain<T: BE>(n: usize, m1: usize, m2: usize, fill: T, slot: &dyn Fn(usize, usize) -> T) -> Banded<T> {
+    let mut b = Banded::<T>::new(n, m1, m2, fill);
+    for i in 0..n { for j in 0..n { if in_band(n, m1, m2, i, j) { b[(i, j)] = slot(i, m1 + j - i); } } }
     b
 }
 /// from {"n","m1","m2","c":{r,c,d}[,"ci":{...}]}
-pub fn band_from<T: BE>(bj: &Value) -> Banded<T> {
+pub fn band_from<T: BE>(bj: &Value) -> Banded<T> { band_from2::<T>(bj).0 }
+/// (matrix, plainly built twin, "arbitrary" | "uniform"): the matrix carries the prescribed padding when the
+/// re-interpretation trick reproduces the whole storage, otherwise it is the plainly built one
+pub fn band_from2<T: BE>(bj: &Value) -> (Banded<T>, Banded<T>, &'static str) {
     let (n, m1, m2) = (getu(bj, "n"), getu(bj, "m1"), getu(bj, "m2"));
     let mm = m1 + m2 + 1;
     let d = bj["c"]["d"].as_array().unwrap_or_else(|| tool_error("band.c.d missing"));
     let di = bj.get("ci").map(|v| v["d"].as_array().unwrap());
     if d.len() != n * mm { tool_error("band.c has the wrong size"); }
-    build::<T>(n, m1, m2, &|i, c| scal::<T>(&d[i * mm + c], di.map(|x| &x[i * mm + c])))
+    let slot = |i: usize, c: usize| scal::<T>(&d[i * mm + c], di.map(|x| &x[i * mm + c]));
+    // fill value of the plain twin: the first padding slot of the case (7 if there is none)
+    let mut fill = T::from_ri(7, 0);
+    'f: for i in 0..n { for c in 0..mm { if !(i + c >= m1 && i + c < n + m1) { fill = slot(i, c); break 'f; } } }
+    let plain = build_plain::<T>(n, m1, m2, fill, &slot);
+    match guarded(|| build::<T>(n, m1, m2, &slot)) {
+        Ok(b) if storage_is(&b, n, m1, m2, &slot) => (b, plain, "arbitrary"),
+        _ => (plain.clone(), plain, "uniform"),
+    }
 }
 pub fn jband<T: Elem>(b: &Banded<T>, w: Part) -> Value { json!({"n": b.size(), "m1": b.size_below(), "m2": b.size_above(), "c": jmat(b.compact(), w)}) }
 fn im_band(bj: &Value) -> Value {
@@ -70,6 +91,19 @@ fn im_band(bj: &Value) -> Value {
     json!({"n": bj["n"], "m1": bj["m1"], "m2": bj["m2"], "c": bj.get("ci").cloned().unwrap_or(z)})
 }
 fn in_band(n: usize, m1: usize, m2: usize, i: usize, j: usize) -> bool { i < n && j < n && j <= i + m2 && i <= j + m1 }
+
+/// construct the operand of a case (a panic is data) and log what was built next to what was asked for
+fn construct<T: BE>(case: &Value, out: &mut Out) -> Option<Banded<T>> {
+    let cid = geti(case, "cid"); let bj = &case["band"];
+    let ints = |k: &str| bj.get(k).map(|c| c["d"].as_array().unwrap().iter().all(|x| x.is_i64())).unwrap_or(true);
+    match guarded(|| band_from2::<T>(bj)) {
+        Ok((m, plain, padding)) => { if ints("c") && ints("ci") { for w in 0..(if T::CX { 2 } else { 1 }) {
+                       let want = if w == 0 { json!({"n": bj["n"], "m1": bj["m1"], "m2": bj["m2"], "c": bj["c"]}) } else { im_band(bj) };
+                       out.ev(json!({"op": "built", "ty": T::NAME, "cid": cid, "k": -1, "panic": false, "padding": padding, "post": jband(&plain, if w == 0 { Part::Re } else { Part::Im }), "want": want})); } }
+                   Some(m) }
+        Err(msg) => { out.ev(json!({"op": "built", "ty": T::NAME, "cid": cid, "k": -1, "panic": true, "msg": msg})); None }
+    }
+}
 
 // ------------------------------------------------------------------ histories
 enum Res<T> { None, B(Banded<T>), V(Vector<T>), S(T), Dims(usize, usize, usize), D(Vec<(i64, i64)>) }
@@ -112,7 +146,7 @@ fn zeros_like(v: &Value) -> Value { Value::from(vec![0i64; v.as_array().map(|a| 
 fn run_hist<T: BE>(case: &Value, out: &mut Out) { run_hist_from::<T>(case, out, 0) }
 fn run_hist_from<T: BE>(case: &Value, out: &mut Out, k0: usize) {
     let cid = geti(case, "cid");
-    let mut m = band_from::<T>(&case["band"]);
+    let mut m = match if k0 == 0 { construct::<T>(case, out) } else { guarded(|| band_from::<T>(&case["band"])).ok() } { Some(m) => m, None => return };
     for (k, op) in case["ops"].as_array().unwrap().iter().enumerate() {
         let k = k + k0;
         let name = gets(op, "op");
@@ -232,20 +266,22 @@ pub fn backward_units(a: &[Vec<(f64, f64)>], x: &[(f64, f64)], b: &[(f64, f64)])
 }
 
 // ------------------------------------------------------------------ det / solve / product on one matrix
-fn dense_of<T: BE>(m: &Banded<T>) -> Vec<Vec<T>> {
-    let n = m.size(); (0..n).map(|i| (0..n).map(|j| if in_band(n, m.size_below(), m.size_above(), i, j) { m[(i, j)] } else { T::from_ri(0, 0) }).collect()).collect()
+/// dense twin of the case's matrix (from the case JSON, never through the object under test)
+fn dense_case(bj: &Value) -> Vec<Vec<(f64, f64)>> {
+    let (n, m1, m2) = (getu(bj, "n"), getu(bj, "m1"), getu(bj, "m2")); let mm = m1 + m2 + 1;
+    let d = bj["c"]["d"].as_array().unwrap(); let di = bj.get("ci").map(|v| v["d"].as_array().unwrap());
+    (0..n).map(|i| (0..n).map(|j| if in_band(n, m1, m2, i, j) { let c = m1 + j - i; (f64_from(&d[i * mm + c]), di.map(|x| f64_from(&x[i * mm + c])).unwrap_or(0.0)) } else { (0.0, 0.0) }).collect()).collect()
 }
 
 fn run_lu<T: BE>(case: &Value, out: &mut Out) {
     let cid = geti(case, "cid");
-    let m = band_from::<T>(&case["band"]);
-    let n = m.size();
+    let m = match construct::<T>(case, out) { Some(m) => m, None => return };
+    let n = getu(&case["band"], "n");
     let b = vec_of::<T>(&case["b"], if T::CX { case.get("bi") } else { None });
     let exact = T::NAME == "rat";
     let mut k = 0usize;
     let emit = |out: &mut Out, k: &mut usize, mut e: Value| { e["ty"] = json!(T::NAME); e["cid"] = json!(cid); e["k"] = json!(*k); *k += 1; out.ev(e); };
-    let dense = dense_of(&m);
-    let dc: Vec<Vec<(f64, f64)>> = dense.iter().map(|r| r.iter().map(|x| x.to_c()).collect()).collect();
+    let dc: Vec<Vec<(f64, f64)>> = dense_case(&case["band"]);
     let bc: Vec<(f64, f64)> = b.vec.iter().map(|x| x.to_c()).collect();
     let det = guarded(|| m.det());
     let sol = guarded(|| m.solve(&b));
